@@ -633,6 +633,8 @@ func runStageCase(c Case, c07 bool) interface{} {
 		extSeen := ext
 		if slash {
 			extSeen = inside + "/ext"
+		} else if b, _ := c["relsrc"].(bool); b {
+			extSeen = "ext" // relative to the working directory of the run, which is `dir`
 		}
 		text := strings.Replace(strings.Join(d.AddFiles, "\n")+"\n", "$EXT", extSeen, -1)
 		ioutil.WriteFile(work+"/addfiles", []byte(text), 0644)
@@ -650,16 +652,34 @@ func runStageCase(c Case, c07 bool) interface{} {
 		}
 		return runCmd(dir, "chroot", append([]string{root, inside + "/stagemaker"}, a...)...)
 	}
+	// the archive written into the tree it is made from, in a directory a built-in wildcard
+	// line collects (`file /var/cache/*`): it must not become a member of itself
+	outInRoot := false
+	if b, _ := c["outinroot"].(bool); b {
+		if st, err := os.Stat(root + "/var/cache"); err == nil && st.IsDir() {
+			outInRoot = true
+		}
+	}
 	gen := func(out, compress string) (int, string) {
-		target := out
-		if slash {
-			target = inside + "/" + path.Base(out)
+		target, written := out, out
+		switch {
+		case outInRoot && slash:
+			target, written = "/var/cache/"+path.Base(out), root+"/var/cache/"+path.Base(out)
+		case outInRoot:
+			target = root + "/var/cache/" + path.Base(out)
+			written = target
+		case slash:
+			target, written = inside+"/"+path.Base(out), root+inside+"/"+path.Base(out)
 		}
 		a := append([]string{"-generate", "-o", target, "-compress", compress}, args...)
 		code, _, se := run(a)
-		if slash && code == 0 {
-			if err := os.Rename(root+target, out); err != nil {
-				return 1, err.Error()
+		if written != out {
+			if code == 0 {
+				if err := os.Rename(written, out); err != nil {
+					return 1, err.Error()
+				}
+			} else {
+				os.Remove(written)
 			}
 		}
 		return code, se
